@@ -1,0 +1,32 @@
+//go:build verif
+
+// Verification hook (build tag verif), add-only: read-only view of the per-peer "known" marks that steer block and
+// transaction propagation (BroadcastBlock, txsLoop, MsgGetTxs). Nothing here is compiled into a normal build.
+
+package comm
+
+import (
+	"github.com/ethereum/go-ethereum/common/mclock"
+
+	"github.com/vechain/thor/v2/p2p/discover"
+	"github.com/vechain/thor/v2/thor"
+)
+
+// VerifPeerMarks reports, for the peer with the given node id in the peer set, which of the given block ids and tx
+// hashes are currently marked as known to that peer (Peer.IsBlockKnown / Peer.IsTransactionKnown). The marks are only
+// peeked at: the LRU order of the caches is not changed.
+func (c *Communicator) VerifPeerMarks(id discover.NodeID, blocks, txs []thor.Bytes32) (found bool, blockMarks, txMarks []bool) {
+	peer := c.peerSet.Find(id)
+	if peer == nil {
+		return false, nil, nil
+	}
+	for _, b := range blocks {
+		blockMarks = append(blockMarks, peer.knownBlocks.Contains(b))
+	}
+	now := mclock.Now()
+	for _, t := range txs {
+		deadline, ok := peer.knownTxs.Peek(t)
+		txMarks = append(txMarks, ok && deadline.(mclock.AbsTime) > now)
+	}
+	return true, blockMarks, txMarks
+}
